@@ -561,7 +561,7 @@ Proof.
 Qed.
 End Layout.
 
-(* ------------------------------------------------------------------ re-opening: extended textual headers (D28) *)
+(* ------------------------------------------------------------------ re-opening: extended textual headers (D34) *)
 Lemma head_byte_kept stored n : 3600 <= zlen stored -> (n < 3600)%nat -> n <> 3224%nat -> n <> 3225%nat ->
   nth n (firstn 3600 (export_stored stored)) 0 = nth n stored 0.
 Proof.
@@ -592,7 +592,7 @@ Proof.
   replace ((0 <=? p) && (p <? zlen mask)) with true by lia. repeat split; try assumption; lia.
 Qed.
 
-(* ------------------------------------------------------------------ re-opening the exported file (D30) *)
+(* ------------------------------------------------------------------ re-opening the exported file (D34) *)
 Section Reopen.
 Variable AX : Type.
 Variable T : Type.
@@ -662,3 +662,20 @@ Example export_demo_irregular :
   demo_plan true false [true; false; true; true; false; true] 7 [10; 13] [20; 22; 24] 4 (demo_stored 0 5 1 0 0 0)
   = Return (6, 5, 4, true, (3600, [], 3600), [(3600, 3840, 0); (3868, 4108, 2); (4136, 4376, 3); (4404, 4644, 5)]).
 Proof. split; vm_compute; reflexivity. Qed.
+
+(* D35: the regenerated delay is int(zslices[0]) whatever the stored header says; so when the source delay is NOT the
+   first sample time (segyio scales the delay by |ScalarTraceHeader| when it derives the sample axis, and the writer
+   truncates the start time to whole milliseconds) the exported header differs from the source on field 109 *)
+Theorem export_delay_refuted_proof (AX T : Type) (tzero : T) (get_trace : Z -> bool -> outcome T)
+  (gen_trace_header : Z -> outcome thdr) (init_head : spec AX -> list Z) :
+  (forall sp, zlen (init_head sp) = 3600) ->
+  forall (r : reader AX) sp f, reader_ok AX r = true ->
+  export AX T tzero get_trace gen_trace_header init_head r = Return (sp, f) ->
+  forall i, 0 <= i < r_tracecount r ->
+    fst (nth (Z.to_nat i) (f_traces f) (tr_zero T tzero)) 109 = r_first_sample r /\
+    forall src : thdr, src 109 <> r_first_sample r -> fst (nth (Z.to_nat i) (f_traces f) (tr_zero T tzero)) 109 <> src 109.
+Proof.
+  intros Hlen r sp f Hok He i Hi.
+  destruct (export_headers_proof AX T tzero get_trace gen_trace_header init_head Hlen r sp f Hok He i Hi) as (h & _ & _ & Hk & _).
+  cbv zeta in Hk. pose proof (Hk 109) as H109. cbn in H109. split; [exact H109|]. intros src Hs. rewrite H109. congruence.
+Qed.
